@@ -604,14 +604,18 @@ Section FlexTrees.
   Proof. exact flex_alg_box_sizing_blind. Qed.
 
   (* ---- whole trees: the engine of Model/BlockFlexK.v with the floor 1.0, the real block preprocessing and absolute routine.  The per-node
-     rewrite cannot know the parent's direction, so the class is the direction-free one: eligible and flex_basis not a length *)
-  Theorem C12_blockflex_engine_box_sizing_blind :
+     rewrite cannot know the parent's direction, so the class is the direction-free one: eligible and flex_basis not a length.
+     PARTIAL (audit 7b; the three engine-level theorems renamed): the property text names flex-basis among the lengths that are rewritten; at
+     engine level a node whose flex_basis is a LENGTH is left alone (`bfn_to_border_box` is the identity on it).  Missing: the tree relation
+     with the parent's direction in it.  The algorithm-level theorem C12_flex_algorithm_box_sizing_blind has no such restriction, and
+     C12_blockflex_borders_and_flex_basis_example computes a whole tree with a rewritten length flex_basis. *)
+  Theorem C12_blockflex_engine_box_sizing_blind_partial :
     BoxSizingBlind (BFNode XQ) (FIn XQ) (LayoutOutput XQ) (FLay XQ) bfn_ok bfn_tb bfn_elig (fin_rel 1) (output_rel 1) (flay_rel 1)
                    (bfn_algo one BlockEngine.block_pre BlockAbs.abs_child_block).
   Proof. exact bfn_algo_box_sizing_blind_real. Qed.
 
   (* the conclusion of C12_engine: no premise on the algorithms *)
-  Theorem C12_blockflex_engine_instance :
+  Theorem C12_blockflex_engine_instance_partial :
     forall f t t' i i',
       trel (BFNode XQ) (FIn XQ) (LayoutOutput XQ) (FLay XQ) bfnode_bb (fin_rel 1) (output_rel 1) (flay_rel 1) t t' -> fin_rel 1 i i' ->
       oprel (res_rel (BFNode XQ) (FIn XQ) (LayoutOutput XQ) (FLay XQ) bfnode_bb (fin_rel 1) (output_rel 1) (flay_rel 1))
@@ -620,7 +624,7 @@ Section FlexTrees.
 
   (* every subset of the eligible nodes of a fresh tree rewritten (bfn_to_border_box at the paths selected by `w`), the SAME input: the run
      succeeds iff the original does, the root outputs and the stored layouts of ALL nodes are equal as numbers *)
-  Theorem C12_blockflex_engine_rewritten_layouts :
+  Theorem C12_blockflex_engine_rewritten_layouts_partial :
     forall f (t : sk (BFNode XQ)) (w : list nat -> bool) i o t1,
       sk_all (BFNode XQ) bfn_ok t -> bf_memo f (bfk_fresh t) i = Some (o, t1) ->
       exists o' t1',
@@ -649,7 +653,79 @@ End FlexTrees.
 Print Assumptions C12_flex_rewrite_is_leaf_rewrite.
 Print Assumptions C12_flex_resolutions_blind.
 Print Assumptions C12_flex_algorithm_box_sizing_blind.
-Print Assumptions C12_blockflex_engine_box_sizing_blind.
-Print Assumptions C12_blockflex_engine_instance.
-Print Assumptions C12_blockflex_engine_rewritten_layouts.
+Print Assumptions C12_blockflex_engine_box_sizing_blind_partial.
+Print Assumptions C12_blockflex_engine_instance_partial.
+Print Assumptions C12_blockflex_engine_rewritten_layouts_partial.
 Print Assumptions C12_blockflex_engine_example.
+
+(* ------------------------------------------------------------------------------------------------------------ *)
+(** * The block + flex engine of `FlexTrees` IS the engine `vh taffytree` runs, on trees without grid containers (audit, wave 7b)
+
+   `bf_memo` (Model/BlockFlexK.v) has no correspondence runner of its own.  Props/C04.v `FlexTreesK` proves that it is the complete engine
+   Model/TaffyRoot.v `real_memo` (= what Model/TaffyEngineRun.v evaluates for `vh taffytree cases`) on every tree without display:grid
+   containers, styles read through `bfn_emb` (C04_blockflex_node_is_taffy_node, C04_blockflex_engine_is_taffy_engine); below, the
+   whole-tree statement of C12 restated about that engine, and the computed Examples the first version lacked: non-zero BORDERS, a LENGTH
+   flex_basis that is rewritten (the engine-level class `bfn_elig` excludes it; the algorithm-level theorem does not), and an Example
+   that would FAIL if the flex_basis were adjusted along the wrong axis.
+   Same caveats as in Props/C04.v: numeric `eqb` keys here vs representation keys in the runner, XQ vs binary32, no compute_root_layout. *)
+From TV Require Model.TaffyEngine Model.TaffyRoot Model.BlockFlexTaffy Model.BlockFlexExample2 Proofs.EngineMap Proofs.BlockFlexTaffy Proofs.BlockFlexTaffyClass.
+Section FlexTreesK.
+  Import TV.Model.Common TV.Model.Leaf TV.Model.Scale TV.Model.FlexAlgBase TV.Model.FlexAlg TV.Model.FlexAlgRel TV.Model.FlexBoxSizing.
+  Import TV.Model.Engine TV.Model.EngineRel.
+  Import TV.Model.BlockFlexEngine TV.Model.BlockFlexK TV.Model.BlockFlexExample TV.Model.TaffyEngine TV.Model.TaffyRoot TV.Model.BlockFlexTaffy.
+  Import TV.Model.BlockFlexExample2 TV.Proofs.BlockFlexRel TV.Proofs.BlockFlexExamples TV.Proofs.BlockFlexTaffy.
+  Import ListNotations.
+
+  (* C12_blockflex_engine_rewritten_layouts_partial about the K-run engine; PARTIAL like the engine-level theorems of `FlexTrees`: a node whose
+     flex_basis is a length is left alone by `bfn_to_border_box` (its rewrite depends on the parent's direction); the rewritten
+     tree is grid-free because the rewrite keeps `display` (Proofs/BlockFlexTaffyClass.v) *)
+  Theorem C12_taffy_engine_rewritten_layouts_partial :
+    forall f (t : sk (BFNode XQ)) (w : list nat -> bool) i o T1,
+      sk_goodb t = true -> sk_all (BFNode XQ) bfn_ok t ->
+      real_memo Num.eqb f (taffy_fresh (sk_map bfn_emb t)) i = Some (o, T1) ->
+      exists o' T1',
+        real_memo Num.eqb f (taffy_fresh (sk_map bfn_emb (sk_map_where (BFNode XQ) bfn_to_border_box w t))) i = Some (o', T1') /\
+        output_rel 1 o o' /\
+        Forall2 (flay_rel 1) (lays (TStyle XQ) (FIn XQ) (LayoutOutput XQ) (FLay XQ) T1) (lays (TStyle XQ) (FIn XQ) (LayoutOutput XQ) (FLay XQ) T1').
+  Proof. exact BlockFlexTaffyClass.real_engine_rewritten_layouts'. Qed.
+
+  (* non-vacuity of C12_flex_algorithm_box_sizing_blind on ONE flex container run through `alg_run` (Model/BlockFlexExample2.v: row container
+     width 200, max-height 90, padding 3, border 1/2/3/1; items with padding AND border, flex-basis 40 / width 60, min-height 20): all three
+     styles are eligible, the rewrite turns the flex basis 40 into 45 (padding 1+1, border 1+2), container and both items rewritten /
+     only item a rewritten: same output and stored layouts; the flex_basis adjusted along the WRONG axis (+6): a different layout *)
+  Example C12_flex_algorithm_example :
+    f_eligibleb ex_cont = true /\ f_eligibleb ex_a = true /\ f_eligibleb ex_b = true /\
+    fs_flex_basis (f_to_border_box_in true ex_a) = Length (Fin 45) /\
+    fbb_rel false ex_cont (f_to_border_box_in false ex_cont) /\
+    Forall2 (fbb_rel true) [ex_a; ex_b] [f_to_border_box_in true ex_a; f_to_border_box_in true ex_b] /\
+    run_eqb (ex_run ex_cont [ex_a; ex_b])
+            (ex_run (f_to_border_box_in false ex_cont) [f_to_border_box_in true ex_a; f_to_border_box_in true ex_b]) = true /\
+    run_eqb (ex_run ex_cont [ex_a; ex_b]) (ex_run ex_cont [f_to_border_box_in true ex_a; ex_b]) = true /\
+    run_eqb (ex_run ex_cont [ex_a; ex_b]) (ex_run ex_cont [f_to_border_box_in false ex_a; ex_b]) = false.
+  Proof.
+    split; [vm_compute; reflexivity|]. split; [vm_compute; reflexivity|]. split; [vm_compute; reflexivity|].
+    split; [vm_compute; reflexivity|].
+    split; [right; split; [vm_compute|]; reflexivity|].
+    split; [repeat constructor; right; (split; [vm_compute|]; reflexivity)|].
+    repeat split; vm_compute; reflexivity.
+  Qed.
+
+  (* whole trees with BORDERS and a rewritten LENGTH flex_basis (Model/BlockFlexExample2.v fx_tree0: the 10-node tree, border 1/2/3/1 on every
+     node, item a0 not growing so that its width is its flex basis): the direction-aware rewrite `fx_rw` of every eligible node (root width
+     300 -> 311, flex basis of a0 40 -> 45, width of b 60 -> 67) gives the same layouts -- computed: this is NOT an instance of the engine-level
+     theorem (a0 is outside `bfn_elig`), it is what the algorithm-level theorem predicts --, the rewrite along the wrong axis does not, and
+     the engine-level rewrite (a0 left alone) does; the trees are grid-free and the complete engine computes the same layouts *)
+  Example C12_blockflex_borders_and_flex_basis_example :
+    fx_rw_probe fx_tree0 = Some (Length (Fin 300), Length (Fin 40), Length (Fin 60)) /\
+    fx_rw_probe (fx_rw true fx_tree0) = Some (Length (Fin 311), Length (Fin 45), Length (Fin 67)) /\
+    fx_same_ok fx_tree0 (fx_rw true fx_tree0) fx_input = true /\
+    fx_same_ok fx_tree0 (fx_rw_wrong fx_tree0) fx_input = false /\
+    fx_same_ok fx_tree0 (sk_map_where (BFNode XQ) bfn_to_border_box (fun _ => true) fx_tree0) fx_input = true /\
+    sk_goodb fx_tree0 = true /\ sk_goodb (sk_map_where (BFNode XQ) bfn_to_border_box (fun _ => true) fx_tree0) = true /\
+    real_vs_bf fx_tree0 fx_input = Some true /\ real_vs_bf (fx_rw true fx_tree0) fx_input = Some true.
+  Proof. repeat split; vm_compute; reflexivity. Qed.
+End FlexTreesK.
+
+Print Assumptions C12_taffy_engine_rewritten_layouts_partial.
+Print Assumptions C12_flex_algorithm_example.
+Print Assumptions C12_blockflex_borders_and_flex_basis_example.
